@@ -163,3 +163,13 @@ pub static mut DKS: DalekState = DalekState {
     sha_len: [0; SHA_INST],
     sha_out: [[0; 64]; SHA_INST],
 };
+
+// Scalar::from_canonical_bytes contract: Some(b) iff b < l; logged in the same slots as from_bytes_mod_order
+pub fn from_canonical_stub(b: [u8; 32]) -> subtle::CtOption<Scalar> {
+    let ok = lt_l(&b);
+    unsafe {
+        if DKS.fmo_n < 3 { DKS.fmo_in[DKS.fmo_n] = b; DKS.fmo_out[DKS.fmo_n] = b; }
+        DKS.fmo_n += 1;
+    }
+    subtle::CtOption::new(scalar_of(b), subtle::Choice::from(ok as u8))
+}
